@@ -40,6 +40,33 @@ class EmbedModel(object):
             raise Inconclusive('_embed no longer takes (outer, inner, use_varargs, use_varkwargs, depth)')
         self.p_outer, self.p_inner = ('P', pos[0]), ('P', pos[1])
         self.params = pos
+        # roles of the switches, from how the public embed() binds them at the fold step (not from their position)
+        self.flag_vp, self.flag_vk, self.depth_name = pos[2], pos[3], pos[4]
+        self.step_call_args = None
+        pub = repo.func(SIG + ':embed', required=False)
+        if pub is not None:
+            for c in ast.walk(pub.node):
+                if isinstance(c, ast.Call) and isinstance(c.func, ast.Name) and c.func.id == self.fi.name:
+                    bound = {}
+                    for i_, a_ in enumerate(c.args):
+                        if i_ < len(pos):
+                            bound[pos[i_]] = a_
+                    for k_ in c.keywords:
+                        if k_.arg:
+                            bound[k_.arg] = k_.value
+                    self.step_call_args = (pub, c, bound)
+                    for pn, a_ in bound.items():
+                        if isinstance(a_, ast.Name) and a_.id == 'use_varargs':
+                            self.flag_vp = pn
+                        elif isinstance(a_, ast.Name) and a_.id == 'use_varkwargs':
+                            self.flag_vk = pn
+                    # depth: the parameter that receives the loop index
+                    for n_ in ast.walk(pub.node):
+                        if isinstance(n_, ast.For) and isinstance(n_.target, ast.Tuple) and n_.target.elts and isinstance(n_.target.elts[0], ast.Name):
+                            idxn = n_.target.elts[0].id
+                            for pn, a_ in bound.items():
+                                if isinstance(a_, ast.Name) and a_.id == idxn:
+                                    self.depth_name = pn
         self.interp = Interp(repo, Policy(inline=_no_inline, split_ifexp='assign-only'))
         self.paths = self.interp.run(self.fi)
         # the merger object: `_Merger(inner, stars_sig)`
@@ -171,7 +198,7 @@ def embed_guards(model, p):
             if b is not None:
                 g[('nonempty' if b[1] in (0, 1, 3) else 'star', b[0], proto.kind_at(b[1]))] = pol
                 continue
-            if atom[1][0] == 'P' and atom[1][1] in model.params[2:4]:
+            if atom[1][0] == 'P' and atom[1][1] in (model.flag_vp, model.flag_vk):
                 g[('flag', atom[1][1])] = pol
                 continue
             unknown.append((atom, pol))
@@ -421,8 +448,33 @@ def rule_embed_flags(check, model, rule):
     """C02.R4: star-flag coherence inside _embed and name-preserving forwarding from embed()"""
     proto = model.proto
     ivp, ivk = proto.index_of_kind('VP'), proto.index_of_kind('VK')
-    items = model.flag_roles()
     st = site(None, model.merger_call.node)
+    right0 = model.merger_call.args[1] if len(model.merger_call.args) == 2 else None
+    if right0 is not None and right0[0] == 'P' and model.step_call_args is not None:
+        # the forwarded-stars operand is handed in by the caller: it must describe the *current* outer operand of each fold
+        # step (the accumulator), so it has to be computed inside the fold loop
+        pub, call, bound = model.step_call_args
+        arg = bound.get(right0[1])
+        loop = None
+        t = call
+        while t is not None:
+            t = getattr(t, '_parent', None)
+            if isinstance(t, (ast.For, ast.While)):
+                loop = t
+                break
+        key = '_signatures:_embed|stars|handed-in'
+        if isinstance(arg, ast.Name) and loop is not None:
+            assigns = [a for a in ast.walk(pub.node) if isinstance(a, ast.Assign) and any(isinstance(x, ast.Name) and x.id == arg.id for x in a.targets)]
+            inside = [a for a in assigns if any(a is y for y in ast.walk(loop))]
+            if assigns and not inside:
+                check.violation(rule, '%s %s' % (pub.loc(assigns[0]), pub.key), 'the stars offered to the inner signature (%s) are computed once, before the fold '
+                                'loop, from the outermost signature and reused at every level: from the second level on they no longer describe '
+                                'what the accumulated outer signature forwards' % arg.id, key=key,
+                                witness="embed(s('x, *args, **kwargs'), s('y, **kwargs'), s('z, w=0')) differs from embed(embed(a, b), c)")
+                return
+        check.inconclusive(rule, st, '_embed receives the forwarded-stars operand from its caller: construction not followed', key=key)
+        return
+    items = model.flag_roles()
     # (a) stars operand: empty PO/POK/KWO, star i = <flag_i> and outer[i]
     flags = {}
     for idx, kind in ((ivp, 'VP'), (ivk, 'VK')):
@@ -583,7 +635,7 @@ def rule_embed_sources(check, model, rules):
     """C08.R3 union hygiene, C08.R4 '+depths' present, C08.R5 depth arithmetic"""
     proto = model.proto
     n = 0
-    depth_p = ('P', model.params[4])
+    depth_p = ('P', model.depth_name)
     for p, items in model.ret_paths:
         gtext = lits_text(p.lits)
         src = items[5]
@@ -621,7 +673,7 @@ def rule_embed_sources(check, model, rules):
                 if b is None or b[0] != 'outer' or proto.kind_at(b[1]) not in ('VP', 'VK'):
                     continue
                 kind = proto.kind_at(b[1])
-                flag = model.params[2] if kind == 'VP' else model.params[3]
+                flag = model.flag_vp if kind == 'VP' else model.flag_vk
                 fv = g_.get(('flag', flag))
                 kf = '_signatures:_embed|starpop-flag|%s|%s' % (kind, fv)
                 if fv is True:
